@@ -230,7 +230,7 @@ func runC19(r *core.Run) {
 
 	N := core.Pick(r, 9, 14)
 	r.Bound("trees", fmt.Sprintf("every ordered tree with 1..%d nodes", N))
-	core.Clause(r, "all-trees", core.Opts{Rule: "every ordered rooted tree (Łukasiewicz code) up to the node bound (built node by node, from one slab, with empty non-nil leaf slices, and with 5 payload variants: all blank, blank leaves, blank inner nodes, identical payloads, infinite distances), PreOrder and PostOrder each vs the recursive reference by node identity; non-trivial = at least 3 nodes"},
+	core.Clause(r, "all-trees", core.Opts{Rule: "every ordered rooted tree (Łukasiewicz code) up to the node bound (built node by node, from one slab, with empty non-nil leaf slices, and with 7 payload variants: all blank, blank leaves, blank inner nodes, identical payloads, infinite distances, every node named #H1, names from the extended-Newick vocabulary), PreOrder and PostOrder each vs the recursive reference by node identity; non-trivial = at least 3 nodes"},
 		func(emit func(c19Tree) bool) {
 			enum.TreesUpTo(N, func(c []int) bool { return emit(c19Tree{append([]int(nil), c...)}) })
 		},
@@ -266,7 +266,8 @@ func runC19(r *core.Run) {
 			}
 			// node payloads: the traversal is about the Children structure only; what a node carries
 			// (no name, zero distance, equal names, NaN) must not decide whether or when it is yielded
-			for variant, what := range []string{"every node blank (empty name, distance 0)", "blank leaves", "blank inner nodes", "all nodes carry the same name and distance", "distances +Inf and -Inf"} {
+			for variant, what := range []string{"every node blank (empty name, distance 0)", "blank leaves", "blank inner nodes", "all nodes carry the same name and distance", "distances +Inf and -Inf",
+				"every node named #H1 (extended-Newick hybrid label)", "names cycling through x#H1, #H1, y#H1, #LGT2, #R1, [&&NHX:x=1], 'q', ;"} {
 				root, nodes = buildTree(c.Code)
 				for _, n := range nodes {
 					leaf := len(n.Children) == 0
@@ -277,6 +278,10 @@ func runC19(r *core.Run) {
 						n.Name, n.Distance = "same", 1
 					case variant == 4:
 						n.Distance = []float64{math.Inf(1), math.Inf(-1)}[len(n.Children)%2]
+					case variant == 5:
+						n.Name = "#H1"
+					case variant == 6:
+						n.Name = []string{"x#H1", "#H1", "y#H1", "#LGT2", "#R1", "[&&NHX:x=1]", "'q'", ";"}[int(n.Distance)%8]
 					}
 				}
 				o4 := checkTraversal(root, nodes, fmt.Sprint("tree ", c.Code, " with ", what))
